@@ -69,3 +69,7 @@ Proof.
   - intro E. apply key_eqb_eq in E. congruence.
   - destruct (key_eqb a b) eqn:E; [|reflexivity]. apply key_eqb_eq in E. contradiction.
 Qed.
+
+(* children of a list node are numbered consecutively *)
+Fixpoint keys_enum (i : Z) (l : list (key * node)) : Prop :=
+  match l with [] => True | kc :: r => fst kc = KI i /\ keys_enum (i + 1) r end.
